@@ -584,7 +584,7 @@ class VcfReader:
     @staticmethod
     def _extract_HP_phase(call: VariantRecordSample) -> Optional[VariantCallPhase]:
         hp = call.get("HP")
-        if hp is None or hp == (".",):
+        if not hp or any(x is None or x == "." for x in hp):
             return None
         fields = [[int(x) for x in s.split("-")] for s in hp]
         for i in range(len(fields)):
